@@ -97,3 +97,56 @@ Definition accept_C12_trajectory (c : tj_obj) (o : jv * list (jv * jv)) : verdic
   (jv_eqb (model_write_tj c) written
    && forallb (fun io : jv * jv => match model_read_tj (fst io) with Ok t' => jv_eqb (model_write_tj t') (snd io) | Err => jv_eqb JNull (snd io) end) variants,
    S (length variants)).
+
+(* ---- file names and text arrays (Model/Files.v) ---- *)
+From Verif Require Import Files.
+
+Definition opt_str_is (a : option str) (b : str) : bool := match a with Some x => str_eqb x b | None => false end.
+Fixpoint first_false (l : list bool) (k : nat) : verdict :=
+  match l with [] => (true, k) | b :: r => if b then first_false r (S k) else (false, S k) end.
+
+(* c: path, extension, base directory, working directory; o: what the seven functions of filepath.py returned (None = raised) *)
+Definition accept_C12_paths (c : str * str * option str * str)
+    (o : option bool * option str * option str * option str * option str * option str * option str) : verdict :=
+  let '(p, e, base, cwd) := c in
+  let '(have, app, rem, lst, wn, wb, bp) := o in
+  first_false [ match have with Some h => Bool.eqb h (have_extension p e) | None => false end;
+                opt_str_is app (append_extension_if_missing p e);
+                opt_str_is rem (remove_extension_if_existing p e);
+                opt_str_is lst (get_last_element p);
+                opt_str_is wn (get_path_with_base p None);
+                opt_str_is wb (get_path_with_base p base);
+                opt_str_is bp (get_base_path cwd p) ] 0.
+
+Definition opt_zs_eqb (a b : option (list Z)) : bool :=
+  match a, b with Some x, Some y => forall2b Z.eqb x y | None, None => true | _, _ => false end.
+(* c: a text and a list of integers; o: load of the text (None = ValueError), the text saved for the integers, and its load *)
+Definition accept_C12_textarray (c : str * list Z) (o : option (option (list Z) * str * option (list Z))) : verdict :=
+  match o with
+  | None => (false, 9%nat)
+  | Some (loaded, saved, back) =>
+      first_false [ opt_zs_eqb loaded (load_array (fst c)); str_eqb saved (save_array (snd c)); opt_zs_eqb back (Some (snd c)) ] 0
+  end.
+
+(* how the operating system resolves a pathlib-normal absolute path in a tree without symbolic links: '..' steps up *)
+Fixpoint collapse (tail acc : list str) : list str :=
+  match tail with
+  | [] => rev acc
+  | x :: r => if str_eqb x [c_dot; c_dot] then collapse r (match acc with [] => [] | _ :: a => a end) else collapse r (x :: acc)
+  end.
+Definition os_resolve (p : str) : str := let pp := parse_path p in fmt_path ([c_slash], collapse (snd pp) []).
+Definition mem_str_l (x : str) (l : list str) : bool := existsb (str_eqb x) l.
+(* c: working directory and the name given to save_rdtrajectory(separate_data=True); o: the files that appeared, the data
+   reference in the JSON file, whether load_rdtrajectory of the JSON file (from another working directory) gave the data back *)
+Definition accept_C12_trajfiles (c : str * str) (o : option (list str * option str * bool)) : verdict :=
+  match o with
+  | None => (false, 9%nat)
+  | Some (files, ref, loaded) =>
+      let (cwd, p) := c in
+      first_false [ Nat.eqb (length files) 2;
+                    mem_str_l (os_resolve (absolute cwd (json_path p))) files;
+                    mem_str_l (os_resolve (data_saved_to cwd p)) files;
+                    opt_str_is ref (data_reference p);
+                    str_eqb (os_resolve (data_loaded_from cwd p)) (os_resolve (data_saved_to cwd p));
+                    loaded ] 0
+  end.
